@@ -1,7 +1,7 @@
 //verif:package github.com/kstenerud/go-concise-encoding/internal/verifh/c28
 //verif:config cap=300 maxsec=1800
 //verif:bounds CBE documents of 3..12 bytes from templates with symbolic payload; reader schedule fully symbolic: each Read returns n in [0, min(len(p), remaining)] bytes (solver variable), at most 2 zero-length reads in total, and may deliver the final bytes together with io.EOF
-//verif:assume the reader obeys the io.Reader contract (n <= len(p); data before error); CTE/universal stream entry points end in the ANTLR parser and are outside reach except for the bufio.Peek/io.Copy prelude
+//verif:assume the reader obeys the io.Reader contract (n <= len(p); data before error)
 package c28
 
 import (
